@@ -4,6 +4,7 @@ import (
 	"encoding/hex"
 	"fmt"
 	"runtime"
+	"runtime/debug"
 	"strconv"
 	"strings"
 	"sync"
@@ -287,8 +288,8 @@ func c07Batch(spaced bool, prefix []int, d int) ([]string, []string) {
 func c07Par(n int, job func(i int) [][]string) [][][]string {
 	out := make([][][]string, n)
 	workers := runtime.NumCPU()
-	if workers > 12 {
-		workers = 12
+	if workers > 16 {
+		workers = 16
 	}
 	if workers < 1 {
 		workers = 1
@@ -327,7 +328,10 @@ func (g *Gen) c07Emit(lines [][]string, tag string) {
 
 // c07TokenStream: exhaustive token sequences up to maxLen, both joiners; every accepted text
 // additionally gets a `parse` line (print, re-parse, print again).
-func c07TokenStream(g *Gen, maxLen int) {
+//
+// sample > 1 keeps only every sample-th batch of maximal-length extensions (the shorter
+// sequences are then assumed to be covered by an exhaustive call with a smaller maxLen).
+func c07TokenStream(g *Gen, spaced bool, maxLen int, sample int, seen map[string]bool) {
 	type batch struct {
 		prefix []int
 		d      int
@@ -337,19 +341,24 @@ func c07TokenStream(g *Gen, maxLen int) {
 	if headLen < 0 {
 		headLen = 0
 	}
+	nHeads := 0
 	var rec func(seq []int)
 	rec = func(seq []int) {
 		if len(seq) == headLen {
-			batches = append(batches, batch{append([]int{}, seq...), maxLen - headLen})
+			nHeads++
+			if sample <= 1 || nHeads%sample == 0 {
+				batches = append(batches, batch{append([]int{}, seq...), maxLen - headLen})
+			}
 			return
 		}
-		batches = append(batches, batch{append([]int{}, seq...), 0})
+		if sample <= 1 {
+			batches = append(batches, batch{append([]int{}, seq...), 0})
+		}
 		for t := range c07Tokens {
 			rec(append(seq, t))
 		}
 	}
 	rec(nil)
-	seen := map[string]bool{}
 	// process in slabs to bound memory
 	const slab = 2000
 	for lo := 0; lo < len(batches); lo += slab {
@@ -357,9 +366,9 @@ func c07TokenStream(g *Gen, maxLen int) {
 		if hi > len(batches) {
 			hi = len(batches)
 		}
-		res := c07Par((hi-lo)*2, func(i int) [][]string {
-			b := batches[lo+i/2]
-			line, texts := c07Batch(i%2 == 1, b.prefix, b.d)
+		res := c07Par(hi-lo, func(i int) [][]string {
+			b := batches[lo+i]
+			line, texts := c07Batch(spaced, b.prefix, b.d)
 			out := [][]string{line}
 			for _, t := range texts {
 				out = append(out, c07ParseLine(t))
@@ -663,8 +672,18 @@ func c07Render(r *RNG, ch *ast.Chain) string {
 }
 
 func genC07(g *Gen) {
-	// (a) exhaustive token sequences
-	c07TokenStream(g, g.pick(5, 6))
+	// the generated parser allocates heavily on every failing parse; a relaxed GC halves the wall time
+	// (collect only when the heap approaches 3 GiB)
+	defer debug.SetGCPercent(debug.SetGCPercent(-1))
+	defer debug.SetMemoryLimit(debug.SetMemoryLimit(3 << 30))
+	// (a) exhaustive token sequences: joined without separator up to 5 / 6 tokens; joined with
+	// single blanks up to 5 tokens, and in the thorough tier every 8th batch of 6-token sequences
+	seen := map[string]bool{}
+	c07TokenStream(g, false, g.pick(5, 6), 1, seen)
+	c07TokenStream(g, true, 5, 1, seen)
+	if g.Thorough {
+		c07TokenStream(g, true, 6, 8, seen)
+	}
 	// (b) exhaustive expression trees in return and assignment position
 	c07TreeStream(g, g.pick(3, 4))
 	// (c) random deep trees in multi-statement scripts
